@@ -1794,6 +1794,11 @@ def scan_epilogue(fns):
                 ob.need(it, e.pc, okd(it, rj[0]), "replay only when the journal was decoded")
             ob.need(it, e.pc, z3.Not(ro), "a read-only open never replays (writes) the journal")
         ob.must_hold(not events(p, "DiskIO::retire_extents") and not events(p, "DiskIO::write_sectors_sync"), "no other device write before the scan")
+        # base case of the scan iteration's free-space invariant: at loop entry nothing is owned yet and last_end <= sector
+        # (both start at the first data block), and – for the panic-freedom obligation – no ambiguous marker has been counted
+        sl_, le_ = f.debug.get("sector"), f.debug.get("last_end")
+        if ob.must_hold(sl_ in p.env and le_ in p.env and z3.is_bv(p.env[sl_]) and z3.is_bv(p.env[le_]), "sector and last_end are initialised before the loop"):
+            ob.need(it, p.pc, z3.And(z3.ULE(p.env[le_], p.env[sl_]), z3.UGE(p.env[sl_], 16)), "loop entry: last_end <= sector and the scan starts in the data area (block >= 16)")
         # a read-only open does not replay the journal: it masks the journalled extents while scanning, with ONE forward pass over the
         # journal – which is only correct over entries in ascending sector order (decode returns them in on-disk order)
         if rj and it.sat(list(p.pc) + [ro]):
